@@ -48,10 +48,15 @@ json.dump(man, open(os.path.join(ROOT, "MANIFEST.json"), "w"), indent=1)
 # merge known findings fragments
 import glob
 kf, seen = [], set()
+fixed_lines = []
 for f in sorted(glob.glob(os.path.join(ROOT, "known_findings.d", "*.json"))):
-    for e in json.load(open(f)).get("findings", []):
+    d = json.load(open(f))
+    for e in d.get("fixed", []):
+        fixed_lines.append("fixed: property=%s %s %s (%s)" % (e["property"], e["commit"], e["what"], e["id"]))
+    for e in d.get("findings", []):
         if (e["property"], e["id"]) not in seen:
             seen.add((e["property"], e["id"]))
             kf.append(e)
-json.dump({"findings": kf}, open(os.path.join(ROOT, "known_findings.json"), "w"), indent=1)
+json.dump({"_comment": "committed, never written at run time; open findings suppress only the listed failure (by classifier); 'fixed' lines suppress nothing",
+           "findings": kf, "fixed": fixed_lines}, open(os.path.join(ROOT, "known_findings.json"), "w"), indent=1)
 print("checks:", [c["property_id"] for c in checks], "not_applicable:", len(na))
